@@ -115,6 +115,13 @@ Fixpoint find_val (a : N) (vs : list validator) : option validator :=
   | v :: t => if N.eqb (val_addr v) a then Some v else find_val a t
   end.
 
+(** ValidatorSet.GetByAddress: position and validator *)
+Fixpoint find_idx (a : N) (vs : list validator) (i : N) : option (N * validator) :=
+  match vs with
+  | [] => None
+  | v :: t => if N.eqb (val_addr v) a then Some (i, v) else find_idx a t (N.succ i)
+  end.
+
 (** updateTotalVotingPower: safeAddClip *)
 Definition total_power (vs : list validator) : Z :=
   fold_left (fun acc v => safe_add_clip acc (val_power v)) vs 0.
@@ -123,15 +130,17 @@ Definition total_power (vs : list validator) : Z :=
 (** * VerifyDuplicateVote (types/evidence/verify.go), checks in the code's order *)
 
 Inductive verr :=
-  VOk | VNoHeader | VTime | VExpired | VNoVals | VNotVal | VHRS | VAddr | VSameId
+  VOk | VNoHeader | VTime | VExpired | VNoVals | VNotVal | VIndex | VHRS | VAddr | VSameId
 | VPower | VTotal | VSigA | VSigB.
 
 Definition verify_duplicate_vote (e : evidence) (chain : N) (vs : list validator) : verr :=
   let a := e_a e in let b := e_b e in
-  match find_val (v_addr a) vs with
+  match find_idx (v_addr a) vs 0 with
   | None => VNotVal
-  | Some val =>
-    if negb (N.eqb (v_height a) (v_height b) && N.eqb (v_round a) (v_round b) && N.eqb (v_type a) (v_type b))
+  | Some (idx, val) =>
+    (* commit be61253: both indices must be the validator's index in the set of that height *)
+    if negb (N.eqb (v_idx a) idx && N.eqb (v_idx b) idx) then VIndex
+    else if negb (N.eqb (v_height a) (v_height b) && N.eqb (v_round a) (v_round b) && N.eqb (v_type a) (v_type b))
     then VHRS
     else if negb (N.eqb (v_addr a) (v_addr b)) then VAddr
     else if bid_eqb (v_bid a) (v_bid b) then VSameId
@@ -277,7 +286,9 @@ Fixpoint check_loop (p : pool) (c : chain) (seen : list N) (evs : list evidence)
   | [] => (p, ROk)
   | e :: t =>
     let step :=
-      if is_pending p e then (p, None)
+      if is_pending p e then
+        (* commit 7b4a6e2: pending evidence may have expired since it was added *)
+        if is_expired (p_state p) (e_height e) (e_time e) then (p, Some (RInvalid VExpired)) else (p, None)
       else if is_committed p e then (p, Some RCommitted)
       else match verify p c e with
            | VOk => (add_pending p e, None)
@@ -446,7 +457,7 @@ Definition try_add_vote_gen (cs : csview) (hash : N) (size : Z) (va vb : vote) :
     let ts := if N.eqb (v_height va) (cs_init_height cs) then cs_last_block_time cs
               else median_time (cs_last_commit cs) (cs_last_vals cs) in
     match new_duplicate_vote_evidence hash size va vb ts (cs_vals cs) with
-    | None => GNil      (* a typed nil reaches AddEvidenceFromConsensus: nil dereference *)
+    | None => GNil      (* commit a8268cc: no evidence is formed (logged) *)
     | Some e => GEvidence e
     end.
 
@@ -506,7 +517,7 @@ Definition step (n : node) (o : op) : node * obs :=
     | GEvidence e =>
       let '(p', r) := add_from_consensus p e in
       ({| n_chain := c; n_pool := p' |}, {| o_res := r; o_list := []; o_size := 0; o_gen := Some g |})
-    | GNil => (n, {| o_res := RPanic; o_list := []; o_size := 0; o_gen := Some g |})
+    | GNil => (n, {| o_res := ROk; o_list := []; o_size := 0; o_gen := Some g |})
     | GSelf => (n, {| o_res := ROk; o_list := []; o_size := 0; o_gen := Some g |})
     end
   end.
